@@ -48,6 +48,7 @@ type val struct {
 	refFrame *e8frame
 	lit      *ast.FuncLit // kFunc
 	env      *e8frame     // kFunc: the defining frame (captured variables are shared)
+	meth     *types.Func  // kFunc without lit: a method expression T.m (called with the receiver first)
 }
 
 func (v *val) refGet() *val {
@@ -490,6 +491,13 @@ func (in *e8interp) eval(fr *e8frame, e ast.Expr) *val {
 			}
 			return base
 		}
+		if sel, ok := info.Selections[x]; ok && sel.Kind() == types.MethodExpr {
+			if m, ok := sel.Obj().(*types.Func); ok {
+				if _, isIface := sel.Recv().Underlying().(*types.Interface); isIface {
+					return &val{k: kFunc, meth: m, typ: info.TypeOf(e)}
+				}
+			}
+		}
 		e8fail("unsupported selector %s", types.ExprString(e))
 	case *ast.StarExpr:
 		v := in.eval(fr, x.X)
@@ -818,7 +826,19 @@ func (in *e8interp) call(fr *e8frame, x *ast.CallExpr) *val {
 	}
 	// a call through a variable that holds a function literal: its body runs in the frame that created it
 	if id, ok := ast.Unparen(x.Fun).(*ast.Ident); ok && fn == nil && in.depth < 6 {
-		if fv, ok := fr.vars[info.ObjectOf(id)]; ok && fv != nil && fv.k == kFunc {
+		if fv, ok := fr.vars[info.ObjectOf(id)]; ok && fv != nil && fv.k == kFunc && fv.lit == nil && fv.meth != nil {
+			// a method expression of an interface type: the same opaque atom
+			// as the method call  args[0].m(args[1:]...)
+			var args []*val
+			var names []string
+			for _, a := range x.Args {
+				av := in.evalQuiet(fr, a)
+				args = append(args, av)
+				names = append(names, in.valName(av, a))
+			}
+			return in.opaqueResult(info, x, fv.meth.Name(), args, names)
+		}
+		if fv, ok := fr.vars[info.ObjectOf(id)]; ok && fv != nil && fv.k == kFunc && fv.lit != nil {
 			env, lpkg := fv.env, fv.env.pkg
 			i := 0
 			for _, f := range fv.lit.Type.Params.List {
@@ -898,6 +918,11 @@ func (in *e8interp) call(fr *e8frame, x *ast.CallExpr) *val {
 			})
 		}
 	}
+	return in.opaqueResult(info, x, calleeName, args, names)
+}
+
+// opaqueResult records an opaque call and returns the atom that stands for its result.
+func (in *e8interp) opaqueResult(info *types.Info, x *ast.CallExpr, calleeName string, args []*val, names []string) *val {
 	name := calleeName + "(" + strings.Join(names, ",") + ")"
 	short := calleeName
 	if i := strings.LastIndex(short, "."); i >= 0 {
